@@ -722,6 +722,11 @@ def _get_rotation_and_strain(
         return np.zeros((3, 3)), 0.0
     if phase == MineralPhase.olivine:
         slip_indices = np.argsort(np.abs(slip_invariants / crss))
+        # Handle the case where shear is only resolved on the inactive (infinite CRSS)
+        # slip system: the most active system has a zero invariant, so no slip is
+        # possible either (and the slip rate ratios would be 0/0).
+        if slip_invariants[slip_indices[-1]] == 0:
+            return np.zeros((3, 3)), 0.0
         slip_rates = _get_slip_rates_olivine(
             slip_invariants,
             slip_indices,
